@@ -85,8 +85,18 @@ func loadVariants(verif string) ([]Variant, error) {
 		sort.Strings(pl)
 		out = append(out, Variant{ID: "seeded:" + meta.ID, Props: pl, Kind: "breaking", Patch: filepath.Join(filepath.Dir(m), "patch.diff")})
 	}
+	// behaviour-preserving single-step refactorings written by independent
+	// sub-agents (helper extraction/inlining, early returns, renamed locals,
+	// reordered independent statements ...): every check must stay silent
+	rps, _ := filepath.Glob(filepath.Join(verif, "corpus", "refactor_patches", "*.diff"))
+	sort.Strings(rps)
+	for _, rp := range rps {
+		out = append(out, Variant{ID: "refactor:" + strings.TrimSuffix(filepath.Base(rp), ".diff"), Props: allProps, Kind: "refactor", Patch: rp})
+	}
 	return out, nil
 }
+
+var allProps = []string{"C01", "C02", "C03", "C04", "C05", "C06", "C07", "C08", "C09", "C10", "C12", "C13", "C14", "C15", "C16", "C17"}
 
 // patchOverlay applies a unified diff to scratch copies of the files it names.
 func patchOverlay(repo, patch string) (map[string]string, bool) {
